@@ -14,6 +14,7 @@ immediately ("calling purge in unsafe status"), the orphaned disk job later acts
 under the key; `c08_accounting_full_fails` / `c08_real_usage_full_fails` are concrete witnesses.
 -/
 import EkwVerif.Lemmas.ShmCore2
+import EkwVerif.Lemmas.ShmMicro
 
 namespace EkwVerif.Shm
 open Aux
@@ -31,7 +32,7 @@ theorem step_cap (s : St) (op : Op) : (step s op).1.cap = s.cap := by
   | add k size deser t =>
     simp only [step, add]
     split; rfl; split; rfl; split; exact (pageOutAtLeast_free _ _ _).2.1; rfl
-  | cwrite k size tok => simp only [step, cwrite]; cases find? s.segs k <;> rfl
+  | cwrite k size tok => exact (cwrite_frame s k size tok).2.1
   | closeW k =>
     simp only [step, closeCb]
     cases find? s.ds k with
@@ -56,21 +57,7 @@ theorem step_cap (s : St) (op : Op) : (step s op).1.cap = s.cap := by
       · split <;> rfl
   | purge k => exact (purge_frame _ _).2.2.2.2.1
   | freeSpace => rfl
-  | io id inj =>
-    simp only [step, ioStep]
-    cases findJob s.jobs id with
-    | none => rfl
-    | some j =>
-      simp only
-      split
-      · rfl
-      · cases j.kind with
-        | out => simp only; split; rfl; cases find? s.segs j.key <;> rfl
-        | inn =>
-          simp only; split; rfl
-          cases find? s.segs j.key with
-          | some g => rfl
-          | none => simp only; split; rfl; split <;> rfl
+  | io id inj => exact (ioStep_frame s id inj).2.2.1
   | cb id =>
     simp only [step, cbStep]
     cases findJob s.jobs id with
@@ -81,8 +68,8 @@ theorem step_cap (s : St) (op : Op) : (step s op).1.cap = s.cap := by
       | none => rfl
       | some r =>
         cases j.kind <;> cases r <;> simp only [decCount]
-        · exact (purge_frame _ _).2.2.2.2.1
-        · exact (purge_frame _ _).2.2.2.2.1
+        · exact (purgeFailed_frame _ _).2.2.2.2.1
+        · exact (purgeFailed_frame _ _).2.2.2.2.1
 
 theorem run_cap (ops : List Op) : ∀ (s : St), (run s ops).cap = s.cap := by
   induction ops with
@@ -207,8 +194,7 @@ theorem c08_space_returns_only (s : St) (op : Op) (h : s.free < (step s op).1.fr
     simp only [step] at h; omega
   | cwrite k size tok =>
     exfalso
-    have : (cwrite s k size tok).1.free = s.free := by
-      unfold cwrite; cases find? s.segs k <;> rfl
+    have : (cwrite s k size tok).1.free = s.free := (cwrite_frame s k size tok).1
     simp only [step] at h; omega
   | get k t cands =>
     exfalso
@@ -229,34 +215,19 @@ theorem c08_space_returns_only (s : St) (op : Op) (h : s.free < (step s op).1.fr
     simp only [step] at h; omega
   | io id inj =>
     exfalso
-    have : (ioStep s id inj).1.free = s.free := by
-      unfold ioStep
-      cases findJob s.jobs id with
-      | none => rfl
-      | some j =>
-        simp only
-        split
-        · rfl
-        · cases j.kind with
-          | out => simp only; split; rfl; cases find? s.segs j.key <;> rfl
-          | inn =>
-            simp only; split; rfl
-            cases find? s.segs j.key with
-            | some g => rfl
-            | none => simp only; split; rfl; split <;> rfl
+    have : (ioStep s id inj).1.free = s.free := (ioStep_frame s id inj).2.1
     simp only [step] at h; omega
 
-/-- `FreeSpaceRequest` is answered with the manager's `free_space` and changes nothing. -/
-theorem c08_freespace_reported (s : St) : step s .freeSpace = (s, .free s.free) := rfl
-
-/-- … which after every `SafeRun` history is `capacity − resident total` (same gap as
-`c08_accounting_partial`). -/
+/-- Reported free space: after every `SafeRun` history a `FreeSpaceRequest` is answered with `capacity − resident total`
+(and changes nothing). That the handler answers with the manager's `free_space` is the model's definition (one line of
+server.py, tied by the correspondence check through the real dispatch); the content of this theorem is the accounting
+invariant behind it. Same gap as `c08_accounting_partial`. -/
 theorem c08_freespace_value_partial (cap sc sr : Nat) (ops : List Op) (h : SafeRun (init cap sc sr) ops) :
-    (step (run (init cap sc sr) ops) .freeSpace).2 = .free (cap - residentTotal (run (init cap sc sr) ops).ds) := by
+    step (run (init cap sc sr) ops) .freeSpace =
+      (run (init cap sc sr) ops, .free (cap - residentTotal (run (init cap sc sr) ops).ds)) := by
   obtain ⟨ha, _, _⟩ := c08_accounting_partial cap sc sr ops h
-  rw [c08_freespace_reported]
-  simp only
-  congr 1; omega
+  show (run (init cap sc sr) ops, Out.free (run (init cap sc sr) ops).free) = _
+  congr 2; omega
 
 /-! ### the excluded class really breaks the property (known finding C08-purge-in-flight) -/
 
@@ -288,6 +259,73 @@ theorem c08_real_usage_full_fails :
   have := h 10 900 900 raceOps2
   revert this
   decide
+
+/-! ### class (a) of `SafeRun` is needed too: the writer's segment -/
+
+/-- `SafeRun` without its clause about writers: only the purge requests are restricted -/
+def conformPurgeB (s : St) : Op → Bool
+  | .purge k => conformB s (.purge k)
+  | _ => true
+
+def PurgeSafeRun : St → List Op → Prop
+  | _, [] => True
+  | s, op :: ops => conformPurgeB s op = true ∧ PurgeSafeRun (step s op).1 ops
+
+instance decPurgeSafeRun : (s : St) → (ops : List Op) → Decidable (PurgeSafeRun s ops)
+  | _, [] => isTrue trivial
+  | s, op :: ops =>
+    have := decPurgeSafeRun (step s op).1 ops
+    inferInstanceAs (Decidable (conformPurgeB s op = true ∧ PurgeSafeRun (step s op).1 ops))
+
+/-- a writer that creates a segment larger than what it was granted (e.g. rounds the size up to pages on its own) -/
+def bigWriterOps : List Op := [.add "a" 2 "" 1, .cwrite "a" 9 1]
+
+/-- a writer that creates its segment only after the store has given the allocation up: granted at 1, silent for longer
+than STALE_CREATE, evicted as stale (the page-out finds no segment: the dataset is dropped, its 2 bytes are returned),
+then the writer creates the segment after all -/
+def lateWriterOps : List Op := [.add "a" 2 "" 1, .add "b" 10 "" 1000, .io 0 .ok, .cb 0, .cwrite "a" 2 1]
+
+/-- The bound on real usage needs the writers' part of `SafeRun`: with purges restricted as in `SafeRun` but writers
+free to create their segment with another size, or after the allocation was evicted/dropped, the segments in /dev/shm
+exceed `capacity − free`. (Both witnesses are replayed on the real store: corpus/C08_writer_*.json; the real
+`client.allocate` creates the segment with the granted size in the same call, which the tie checks.) -/
+theorem c08_real_usage_writer_full_fails :
+    (¬ ∀ (cap sc sr : Nat) (ops : List Op), PurgeSafeRun (init cap sc sr) ops →
+        segTotal (run (init cap sc sr) ops).segs + (run (init cap sc sr) ops).free ≤ cap) ∧
+    PurgeSafeRun (init 10 900 900) bigWriterOps ∧ PurgeSafeRun (init 10 900 900) lateWriterOps ∧
+    ¬ segTotal (run (init 10 900 900) lateWriterOps).segs + (run (init 10 900 900) lateWriterOps).free ≤ 10 := by
+  refine ⟨?_, by decide, by decide, by decide⟩
+  intro h
+  have := h 10 900 900 bigWriterOps (by decide)
+  revert this
+  decide
+
+/-! ### thread level: the updates of `free_space` (Lemmas/ShmMicro.lean) -/
+
+open Micro in
+/-- **No lost update on `free_space` at thread level** (the code after the fix, where `add`, `page_in`, `purge` and the
+disk-job callbacks all update `free_space` under `pageout_one`): split every update into acquire · read · write · release
+and let any number of threads interleave at that granularity in EVERY possible way; `free` always equals the initial
+value plus the deltas of the updates whose write has happened. This is what makes the handler-atomic update of `free`
+in Model/Shm.lean (and hence the accounting theorems) adequate for real threads. -/
+theorem c08_locked_updates_exact (free : Int) (ths : Nat → Th) (hl : ∀ i, (ths i).locking = true) (hi : ∀ i, (ths i).pc = .idle)
+    (sched : List Nat) :
+    (mrun (start free ths) sched).free = free + (mrun (start free ths) sched).applied :=
+  locked_updates_exact free ths hl hi sched
+
+open Micro in
+/-- … and it is false as soon as one site does not take the lock (`Manager.add` / `Manager.page_in` before the fix): the
+server thread reads 10, a page-out callback credits 6 under the lock, the server thread writes 10 − 3; both updates
+have completed and 6 bytes of free space are lost. The harness forces this very schedule on the real Manager with a real
+second thread (op `race`): it fails on the unfixed code (corpus/C08_lost_update.json) and passes with the fix. -/
+theorem c08_unlocked_update_full_fails :
+    ¬ ∀ (free : Int) (ths : Nat → Th), (∀ i, (ths i).pc = .idle) → ∀ (sched : List Nat),
+        (mrun (start free ths) sched).free = free + (mrun (start free ths) sched).applied := by
+  intro h
+  have h1 := h 10 racyThreads (by intro i; unfold racyThreads; split <;> rfl) racySchedule
+  have h2 := unlocked_update_loses
+  rw [h2.1, h2.2.1] at h1
+  exact absurd h1 (by decide)
 
 /-! ### non-vacuity -/
 
